@@ -13,6 +13,7 @@ import contextlib
 import importlib
 import io
 import multiprocessing
+import math
 import os
 import random
 import sys
@@ -231,9 +232,13 @@ class FakeClock:
 
     EPOCH = 1.7e9
 
-    def __init__(self, tick=1e-6):
+    def __init__(self, tick=1e-6, resolution=0.0):
         self.now = 0.0
         self.tick = tick
+        # fault "coarse clock": the value the program reads only changes every `resolution` seconds (time.time() on
+        # Windows before Python 3.13 moves in steps of about 15.6 ms), so two readings can be equal
+        self.resolution = float(resolution or 0.0)
+        self.shown = 0.0
         self.reads = 0
         self.jump_schedule = []  # list of (at_read_number, dt)
         # --- timed-run bookkeeping (armed by the harness around run_for)
@@ -273,23 +278,31 @@ class FakeClock:
             c = _ctx.get()
             if c is not None:
                 c.stats["fault_clock_jump"] += 1
+        shown = self.now
+        if self.resolution > 0:
+            shown = math.floor(self.now / self.resolution) * self.resolution
+            if shown == self.shown and self.reads > 1:
+                c = _ctx.get()
+                if c is not None:
+                    c.stats["fault_coarse_clock_equal_readings"] += 1
+        self.shown = shown
         if self.armed:
             if self.first_read is None:
-                self.first_read = self.now
-                self.deadline = self.now + self.budget
+                self.first_read = shown
+                self.deadline = shown + self.budget
             if self.evals_in_batch > 0:
                 if not self.deadline_seen:
                     self.max_batch_evals = max(self.max_batch_evals, self.evals_in_batch)
                 self.batches += 1
                 self.evals_in_batch = 0
-            if self.now >= self.deadline:
+            if shown >= self.deadline:
                 self.deadline_seen = True
             self.reads_since_eval += 1
             self.idle_reads_max_seen = max(self.idle_reads_max_seen, self.reads_since_eval)
-            if self.reads_since_eval > self.max_idle_reads and self.now < self.deadline:
+            if self.reads_since_eval > self.max_idle_reads and shown < self.deadline:
                 raise BusyWait("%d consecutive clock readings without a posterior evaluation, %.3f s before the deadline"
-                               % (self.reads_since_eval, self.deadline - self.now))
-        return self.EPOCH + self.now
+                               % (self.reads_since_eval, self.deadline - shown))
+        return self.EPOCH + shown
 
     def advance(self, dt):
         self.now += dt
